@@ -544,7 +544,7 @@ def evaluate(c):
 
 # ------------------------------------------------------------------------------------------------ running
 def par_lines(ctx, argv, lines, timeout, nchunks=None):
-    nchunks = nchunks or min(NPROC, max(1, len(lines) // 8))
+    nchunks = nchunks or min(4 * NPROC, max(1, len(lines) // 8))      # short chunks: a time-out is per chunk
     idx = list(range(len(lines)))
     chunks = [idx[i::nchunks] for i in range(nchunks)]
     out = [None] * len(lines)
@@ -553,12 +553,12 @@ def par_lines(ctx, argv, lines, timeout, nchunks=None):
         r = ctx.run_lines(argv, [lines[i] for i in ch], timeout=timeout)
         for i, o in zip(ch, r):
             out[i] = o
-    with ThreadPoolExecutor(max_workers=nchunks) as ex:
+    with ThreadPoolExecutor(max_workers=min(nchunks, NPROC)) as ex:
         list(ex.map(work, chunks))
     return out
 
 
-def run_cases(ctx, hexe, drv, cases, timeout=900):
+def run_cases(ctx, hexe, drv, cases, timeout=1800):
     impl = par_lines(ctx, [hexe], [harness_line(c) for c in cases], timeout)
     for c, o in zip(cases, impl):
         c.impl = parse_impl(o) if o and not o.startswith(('CRASH', 'TIMEOUT')) and 'BADWKB' not in o else {'_raw': o}
